@@ -467,7 +467,10 @@ def resident_parts(res, run_id, parallel=False):
             steps['obs2'] = AgentStep({'name': 'obs2', 'run_id': run_id})
             flow['obs2'] = [('obs',)]
             topology['obs2'] = {'x': ('x',)}
-        steps['obs'] = AgentStep({'name': 'obs', 'run_id': run_id})
+        sparams = {'name': 'obs', 'run_id': run_id}
+        if res.get('parallel_step') and (parallel or res.get('parallel')):
+            sparams['_parallel'] = True
+        steps['obs'] = AgentStep(sparams)
         flow['obs'] = []
         topology['obs'] = {'x': ('x',)}
     if res.get('deriver'):
